@@ -281,6 +281,13 @@ def run(tier, seed, replay):
                                                               'query': lines[k], 'implementation_output': outs[k], 'coq_term': a, 'expected': b,
                                                               'all': [lines[x[0]] for x in mism[:20]]}))
         violations.append({'replay': path, 'nofail': True})
+    # header codec: parse -> serialise -> parse keeps every extension (incl. unknown ones, odd payload lengths)
+    import c14
+    hfinds, nhdr = c14.roundtrip_findings(rng, tier)
+    for (hb, desc) in hfinds[:3]:
+        path = qv.write_replay('C15', 'hdr_roundtrip_%d.json' % len(violations), json.dumps({'what': desc, 'buffer': hb.hex()}))
+        violations.append({'replay': path})
+        print('  finding [header round trip]: %s' % desc[:300])
     import shutil
     shutil.rmtree(d, ignore_errors=True)
     distinct = len(set(lines))
@@ -289,7 +296,7 @@ def run(tier, seed, replay):
         'rule': 'inputs drawn per class (valid standard / valid compressed / boundary words / random words; refcount widths 0..6 with fitting and non-fitting values; offsets at cluster, slice and table boundaries) over geometries cb 9..21 x refcount_order x slice bits; non-trivial = distinct query line',
         'samples': [{'query': lines[i], 'implementation': outs[i]} for i in ([1, len(lines) // 3, len(lines) // 2, len(lines) - 1] if len(lines) > 3 else range(len(lines)))],
         'programs': len(pairs), 'disagreements_checked': len(mism), 'traces_validated_against_impl': len(pairs) - len(mism),
-        'distribution': stats, 'spec_oracle_evaluations': len(verdicts), 'spec_oracle_violations': len(viol), 'known_finding_hits': len(kf),
+        'distribution': stats, 'header_roundtrip_buffers': nhdr, 'spec_oracle_evaluations': len(verdicts), 'spec_oracle_violations': len(viol), 'known_finding_hits': len(kf),
     }
     expl = ('Theorems C15_l1_entry, C15_rt_entry, C15_l2_decode, C15_l2_roundtrip, C15_refcount, C15_guest_split, C15_host_split '
             '(+ C15_F27_refuted) are proved over the functions regenerated from /repo/src this run. '
